@@ -15,6 +15,8 @@ import (
 	"verif/refmodel"
 )
 
+func init() { core.BeginHook = obs.SetOrder }
+
 // M is the reference model with the standard's configuration and IDNA "as given".
 var M = refmodel.Default(given.ToASCII)
 
